@@ -74,7 +74,7 @@ int cp_sokaka_key(uint8_t *key, size_t key_len, const char *id1,
 		const sokaka_t k, const char *id2) {
 	size_t size, len1 = strlen(id1), len2 = strlen(id2);
 	int first = 0, result = RLC_OK;
-	uint8_t *buf;
+	uint8_t *buf = NULL;
 	g1_t p;
 	g2_t q;
 	gt_t e;
